@@ -10,7 +10,7 @@ OBLIGATIONS = [
     {"id": "C19_N1a", "theorem": "Iora.C19.N1_sound", "kind": "proved",
      "statement": "Denotes m off ls next (RFC 1035 relation, any layout of compression pointers) and wire ls <= 253 -> decodeName m off = ok (dotted ls, next)"},
     {"id": "C19_N1b", "theorem": "Iora.C19.N1_complete", "kind": "proved",
-     "statement": "decodeName m off = ok (n, next) -> exists ls, Denotes m off ls next and n = dotted ls (exact or rejected; needs the F33 repair)"},
+     "statement": "decodeName m off = ok (n, next) -> exists ls, Denotes m off ls next and n = dotted ls (exact or rejected; needs the FC19a repair)"},
     {"id": "C19_N1_dotted", "theorem": "Iora.C19.N1_dotted", "kind": "proved", "statement": "presentation form = labels joined by dots"},
     {"id": "C19_N1c", "theorem": "Iora.C19.N1_roundtrip", "kind": "proved",
      "statement": "encodeName n = ok w -> decodeName (pre ++ w ++ post) |pre| = ok (dotted (labelsOf n), |pre| + |w|)"},
@@ -884,8 +884,7 @@ def run(ctx: Ctx):
     scale = 1 if quick else 15
     rng = ctx.rng
     ctx.translate(["dns"])
-    ok_exe = ctx.lake_build(["iora_model"])
-    ok_build = ok_exe and ctx.lake_build(MODULES)
+    ok_build = ctx.lake_build(MODULES)
     if ok_build:
         ctx.audit(MODULES, OBLIGATIONS)
         if not quick:
@@ -897,7 +896,7 @@ def run(ctx: Ctx):
     carve_counts = {}
     known = [k for k in load_known_findings() if k.get("property") == ID and k["kind"] == "finding"]
     known_ids = {k.get("id") for k in known}
-    if hb and ok_exe and os.path.exists(ctx.model_bin()):
+    if hb:
         corpus = load_corpus()
         cases = list(corpus)
         cases += gen_gadget_cases(rng.fork("gadget"))
@@ -906,7 +905,7 @@ def run(ctx: Ctx):
         cases += gen_mutated_cases(rng.fork("mut"), 2500 * scale)
         cases += gen_query_cases(rng.fork("query"), 300 * scale)
         cases += gen_cache_cases(rng.fork("cache"), 250 * scale)
-        res = ctx.lockstep("dns", hb, cases, timeout=1500)
+        res = ctx.lockstep("dns", hb, cases, timeout=400)
         n_mismatch = 0
         skipped_after_crash_cap = 0
         ptr_total = fwd_total = 0
